@@ -40,8 +40,9 @@ Print Assumptions C04_roundtrip_medit.
 (* geogram_ascii.  pc / rc: '{}'.format and complex() on complex values; f_is_zero x is x == 0.0, c_is_zero z is z == 0j.
    geo_ok m: attribute names are free of double quotes, are not the names the format reserves and are distinct on each
    container (nor 'corner_adjacent_facet' on face corners / 'adjacent_cell', 'opposite_cell' on cell facets, which mouette
-   uses itself); arities are >= 1; values have the attribute's type; string values are not chunk headers; cells are
-   tetrahedra (the only cells mouette can write to this format, see C04_geogram_hexahedra_refuted). *)
+   uses itself); arities are >= 1; values have the attribute's type; string values are not chunk headers.  Cells
+   of any arity are covered (cell_ptr is written when some cell is not a tetrahedron; the cell adjacency is written and
+   read back for tetrahedral meshes only). *)
 Theorem C04_roundtrip_geogram : forall (F Ftxt Cx Ctxt : Type) (pf : F -> Ftxt) (rf : Ftxt -> F) (f_of_int : Z -> F)
     (pc : Cx -> Ctxt) (rc : Ctxt -> Cx) (cx_of_f : F -> Cx) (f_is_zero : F -> bool) (c_is_zero : Cx -> bool),
   (forall x, rf (pf x) = x) -> (forall c, rc (pc c) = c) -> forall (m : mesh F Cx), @geo_ok F Ftxt Cx Ctxt m ->
@@ -139,9 +140,20 @@ Theorem C04_vocabulary : forall (F Cx : Type) (m : mesh F Cx) sw,
 Proof. exact vocabulary. Qed.
 Print Assumptions C04_vocabulary.
 
-(* ---- REFUTED for the faithful model (known finding geogram_ascii/non-tetrahedral-cells/save-raises): hexahedra, which the
-   geogram format can express, cannot be saved: save raises (volume.py unpacks every cell as 4 vertices) *)
-Theorem C04_geogram_hexahedra_refuted :
-  exists m : zmesh, mC m = [[0; 1; 2; 3; 4; 5; 6; 7]] /\ print_fmt Fgeo default_sw m = None /\ zsave_geo m = None.
-Proof. exact geogram_hexahedra_refuted. Qed.
-Print Assumptions C04_geogram_hexahedra_refuted.
+(* ---- REFUTED for the faithful model (known findings): legal files of independent writers that the importers misread *)
+(* OBJ: -k is the k-th vertex from the end; mouette reads f -3 -2 -1 as the face (-4, -3, -2) *)
+Theorem C04_obj_relative_indices_refuted :
+  exists r, parse_fmt Fobj ex_obj_relative = Some r /\ rF r = [[-4; -3; -2]] /\ rF r <> [[0; 1; 2]].
+Proof. exact obj_relative_indices_refuted. Qed.
+Print Assumptions C04_obj_relative_indices_refuted.
+(* Medit: `Vertices 1` on one line is read by the reference (free-form) reader, skipped by mouette *)
+Theorem C04_medit_inline_count_refuted :
+  exists r1 r2, ref_parse_fmt Fmedit ex_medit_inline = Some r1 /\ parse_fmt Fmedit ex_medit_inline = Some r2
+                /\ rV r1 = [[0; 0; 0]] /\ rV r2 = [].
+Proof. exact medit_inline_count_refuted. Qed.
+Print Assumptions C04_medit_inline_count_refuted.
+(* Medit: in a `Dimension 2` file the reference label 7 of the vertex (0, 0) is loaded as z = 7.0 *)
+Theorem C04_medit_dimension2_refuted :
+  exists r, parse_fmt Fmedit ex_medit_dim2 = Some r /\ rV r = [[0; 0; 4619567317775286272]].
+Proof. exact medit_dimension2_refuted. Qed.
+Print Assumptions C04_medit_dimension2_refuted.
